@@ -4,58 +4,36 @@ NOTES = ("All checks share one Coq development and one harness; ./check --setup 
 NOT_APPLICABLE = {}
 CHECKS = {
     "C12": {
-        "text": "Proved over any group satisfying explicit prime-order laws: unblinding an evaluation of the blinded point equals the evaluation of the "
-                "unblinded point for every invertible blinding; the server's answer is exponent*point with exponent 1/(key+PRF(tag)) under every history; "
-                "blinding hides the point iff r<>1; different exponents give different outputs. The model (scalars, hashes, transcripts concrete; group "
-                "operations through a dalek oracle) is bit-exact with the Rust on every run.",
-        "note": "Partial: group laws of ristretto255 and primality of ell are premises; freshness of blinding is measured.",
+        "text": "Proved over any group satisfying explicit prime-order laws: unblinding an evaluation of the blinded point equals the evaluation of the unblinded point for every invertible blinding; the server's answer is exponent*point with exponent 1/(key+PRF(tag)) under every history; blinding hides the point iff r<>1; different exponents give different outputs; finalize is the labelled digest of input, tag and unblinded point. ell is proved prime (Pratt certificate) and the model's scalar inversion is proved to be the inverse mod ell. The model (scalars, hashes, transcripts concrete; group operations through a dalek oracle) is bit-exact with the Rust on every run.",
+        "note": 'Partial: the group laws of ristretto255 encodings are a premise (GrpLaws); freshness of blinding is measured.',
     },
     "C13": {
-        "text": "Completeness of the batched DLEQ proof proved for any batch, key, nonce, hash and group satisfying the laws; binary round trip of proofs "
-                "proved. Soundness: the model's verifier is bit-exact with the Rust's, and every single-component replacement is tried against the Rust on "
-                "every run (a false accept is reported with the tuple); nonce freshness measured by recomputing every commitment.",
-        "note": "Partial: soundness rests on the random-oracle argument, not proved here.",
+        "text": "Completeness of the batched DLEQ proof proved for any batch, key, nonce, hash and group satisfying the laws; special soundness proved (two accepting transcripts with different challenges on one commitment force z = k*m; with ell proved prime any two different challenges do); binary round trip of proofs proved; malformed proofs rejected. The model's verifier is bit-exact with the Rust's, and every single-component replacement, including a rogue prover that hashes the honest public key, is tried against the Rust on every run (a false accept is reported with the tuple); nonce freshness measured by recomputing every commitment.",
+        "note": 'Partial: turning special soundness into soundness needs the random-oracle argument for the challenge hash, not proved here.',
     },
     "C14": {
-        "text": "Refinement proved: for every operation history over a family of instances (evaluate, puncture, clone, export+import), each instance equals "
-                "its creation state with its lineage's punctures applied; key / public key never change; an instance answers iff point decodable, tag "
-                "registered and not punctured in its lineage, always with the same value (uses the GGM history theorem at depth 8). Histories incl. resync "
-                "of existing instances are run against the Rust and the model on every check, key material compared.",
-        "note": "The serialised key state (bincode of bitvec) is not modelled; import is a copy in the model.",
+        "text": "Refinement proved: for every operation history over a family of instances (evaluate, puncture, clone, export+import), each instance equals its creation state with its lineage's punctures applied; key / public key never change; an instance answers iff point decodable, tag registered and not punctured in its lineage, always with the same value (uses the GGM history theorem at depth 8). Histories incl. resync of existing instances are run against the Rust and the model on every check; key material and the exported key-state bytes (bincode of key, public key, GGM prefixes as bitvec, punctured list) are compared byte for byte through a digest.",
+        "note": 'Import is a state copy in the model; the exported bytes are modelled and compared, the importing parser is exercised on the Rust only.',
     },
     "C15": {
-        "text": "Proved: decode(encode)=id for public keys (sorted one-byte tags, up to 256) and proofs (canonical scalars); inputs above the limits are "
-                "refused; every key fits under the limit declared in the source (regenerated constant). JSON forms: round trip / truncation checked "
-                "against serde_json on every run.",
-        "note": "Partial with respect to JSON (grammar not modelled).",
+        "text": "Proved: decode(encode)=id for public keys (sorted one-byte tags, up to 256) and proofs (canonical scalars); inputs above the limits are refused; every key fits under the limit declared in the source (regenerated constant). JSON forms of points and evaluations are modelled (serde_json's compact output; base64 output, number arrays) and decode(encode)=id proved; the Rust's serde_json output is compared byte for byte with the model and damaged JSON (truncation, bad base64, 256, leading zero, extra/missing element, non-canonical scalar) must be refused by both.",
+        "note": "JSON: the canonical (whitespace-free) grammar is modelled; serde_json's tolerance of whitespace is not.",
     },
     "C17": {
-        "text": "Proved for any F: create_share's output is the fixed JSON frame around base64 of exactly the key, a share and the tag of the core derivations; "
-                "base64 decode(encode) = id for all byte strings, only canonical encodings accepted, alphabet needs no JSON escaping; group_shares = "
-                "base64 + share decoding + share_recover + derive_ske_key, yields nothing on undecodable input, never panics; another epoch gives the "
-                "same key only on a truncated-digest collision. Combined with C01/C02/C05 for what share_recover returns.",
-        "note": "The string API is called natively; wasm-bindgen glue is not modelled.",
+        "text": "Proved for any F: create_share's output is the fixed JSON frame around base64 of exactly the key, a share and the tag of the core derivations; base64 decode(encode) = id for all byte strings, only canonical encodings accepted, alphabet needs no JSON escaping; group_shares = base64 + share decoding + share_recover + derive_ske_key, yields nothing on undecodable input, never panics; composition theorem: group_shares over the share fields of t honest create_share outputs (distinct points) returns exactly base64 of the key create_share reported; another epoch gives the same key only on a truncated-digest collision.",
+        "note": 'The string API is called natively; wasm-bindgen glue is not modelled.',
     },
     "C18": {
-        "text": "Proved: a bucket of honest reports with t distinct points yields the measurement and, per client, its associated data with empty reported "
-                "as absent; the output is one entry per tag bucket of >= threshold reports; 'exactly the associated data' is refuted for empty associated "
-                "data (known finding). Order / thread-count independence: sequential model vs the Rust under 6 pool sizes and shuffles on every run.",
+        "text": "Proved for any F: the aggregator applied to ANY list of honest reports (any number of measurements, any interleaving) returns exactly one entry per tag held by >= threshold reports, in first-occurrence order, carrying the measurement and, per client of that tag, its associated data with empty reported as absent (C18_aggregate); a permutation of the input permutes tags, keeps which tags qualify and permutes each tag's clients (C18_perm_*); 'exactly the associated data' is refuted for empty associated data (known finding). Thread-count independence: sequential model vs the Rust under 6 pool sizes and shuffles on every run.",
         "note": "Partial for schedules: rayon's contract is not modelled. Known finding C18/empty-aux.",
     },
     "C10": {
-        "text": "Theorems for ANY depth, ANY PRG, ANY puncture history (unbounded, any order, repetitions): an input evaluates iff never punctured, and "
-                "then to its fresh-key value; fresh punctures succeed and add exactly that input; repeated punctures are refused without change; "
-                "wrong lengths refused without change; values distinct up to an explicit PRG collision. Invariant: for every leaf the list of "
-                "retained prefixes covering it is a singleton (unpunctured) or empty (punctured), with the node's own seed. The model is bit-exact "
-                "(STROBE PRG) and compared with the Rust step by step including a digest of the retained key material.",
+        "text": "Theorems for ANY depth, ANY PRG, ANY puncture history (unbounded, any order, repetitions): an input evaluates iff never punctured, and then to its fresh-key value; fresh punctures succeed and add exactly that input; repeated punctures are refused without change; wrong lengths refused without change; values distinct up to an explicit PRG collision; at the code's depth (8 bits, Lsb0) different bytes are different inputs. Invariant: for every leaf the list of retained prefixes covering it is a singleton (unpunctured) or empty (punctured), with the node's own seed. The model is bit-exact (STROBE PRG) and compared with the Rust step by step including a digest of the retained key material.",
         "note": "GGM::setup's secrets are read back through the verif-hooks accessor; the model starts from them.",
     },
     "C11": {
-        "text": "Theorems for ANY depth / PRG / history: no retained prefix is a prefix of a punctured input; every unpunctured input has exactly one "
-                "retained ancestor with its own seed; retained seeds are exactly node seeds; the root is never stored. The Rust key material is "
-                "read through the hook after every puncture and compared with the model state (digest per step, full state at the end).",
-        "note": "Partial: that the remaining seeds do not let one recompute a punctured value is one-wayness of the PRG (assumed). "
-                "Export/import of the state between servers is exercised under C14.",
+        "text": 'Theorems for ANY depth / PRG / history: no retained prefix is a prefix of a punctured input; every unpunctured input has exactly one retained ancestor with its own seed; retained seeds are exactly node seeds; the root is never stored; the exported server state consists of exactly key, public key, retained prefixes with seeds and punctured list (C11_export_contents). The Rust key material is read through the hook after every puncture and compared with the model state (digest per step, full state at the end); exported key-state bytes compared on every export.',
+        "note": 'Partial: that the remaining seeds do not let one recompute a punctured value is one-wayness of the PRG (assumed).',
     },
     "C03": {
         "text": "The keystream clause is refuted by proof: for any permutation F, ciphertext byte i < 166 is payload byte i XOR a key-only byte, "
@@ -79,22 +57,16 @@ CHECKS = {
         "note": "Premise: the coefficient sampler returned (observed). Share points are inputs of the model (OS RNG in the code).",
     },
     "C02": {
-        "text": "Proved: fewer distinct points than the first share's threshold => Err (any padding); threshold 0 => Err; a rewritten threshold "
-                "yields Err or an explicit MAC coincidence; dealer structure (t coefficients, consecutive separate draws). Measured on every run: "
-                "non-zero / distinct coefficients, no secret in the clear. Partial: pseudo-randomness is not a theorem.",
-        "note": "Reduction form: MacCoincidence is a concrete pair of different sharings with equal MACs, never a hypothesis.",
+        "text": "Proved: fewer distinct points than the first share's threshold => Err (any padding); threshold 0 => Err; a rewritten threshold yields Err or an explicit MAC coincidence; dealer structure (t coefficients, consecutive separate draws); perfect secrecy of the polynomial layer: for ANY t-1 distinct non-zero points and ANY candidate secret there is a polynomial of at most t coefficients through those share values with that secret, and t points determine the polynomial. Measured on every run: non-zero / distinct coefficients, no secret in the clear.",
+        "note": 'Partial: pseudo-randomness of the STROBE-derived coefficients is not a theorem. MacCoincidence is a concrete pair, never a hypothesis.',
     },
     "C05": {
-        "text": "Proved for any F: recovery from ANY collection whose first share is honest returns that sharing or exhibits a MAC coincidence; "
-                "whatever is returned verifies under the first share's threshold and MAC; an altered tag is always rejected; non-first fields are "
-                "ignored; never panics. Fault campaign against the Rust on every run.",
-        "note": "Known finding C05/t1-share-point (threshold 1: share point not bound) is listed in known_findings.json.",
+        "text": "Proved for any F: recovery from ANY collection whose first share is honest returns that sharing or exhibits a MAC coincidence; an honest tag binds (t, M, R, T) up to a MAC coincidence; whatever is returned verifies under the first share's threshold and MAC; an altered tag is always rejected; non-first fields are ignored; never panics; the mechanism of the empty-sharing finding is a theorem (with M and R empty nothing depends on the sharing key). Fault campaign against the Rust on every run.",
+        "note": 'Known findings C05/t1-share-point and C05/empty-sharing are listed in known_findings.json.',
     },
     "C08": {
-        "text": "Proved: decode(encode v) = v for Shamir shares, adss shares and reports; chunk helper round trip; an accepted chunk is the slice its "
-                "header delimits; out-of-range elements rejected exactly; all four decoders total (no Panic outcome). Canonical re-encoding of accepted "
-                "non-canonical strings is checked against an independent parser on every run (proof of that clause: sharks level only so far).",
-        "note": "Model carries every slice operation of the Rust as a possibly-panicking primitive.",
+        "text": 'Proved: decode(encode v) = v for Shamir shares, adss shares and reports; chunk helper round trip; an accepted chunk is the slice its header delimits; out-of-range elements rejected exactly; canonical form: whatever string a decoder accepts, re-encoding the decoded value gives the canonical string, which decodes to the same value (sharks, adss share, report); all four decoders total (no Panic outcome). Re-encoding also checked against an independent parser on every run.',
+        "note": 'Model carries every slice operation of the Rust as a possibly-panicking primitive.',
     },
     "C09": {
         "text": "The model marks every panicking primitive of the Rust (slice indexing, unwrap) with an outcome Panic; theorems show it unreachable for "
